@@ -234,3 +234,29 @@ func init() {
 		f.strListListFact("resolveUnresolvePaths", unres)
 	})
 }
+
+func init() {
+	extra = append(extra, func(f *Facts) {
+		// C17: IndexTable checks a received table's description against its blocks before indexing rows by
+		// key position: the key indices against the column list, every row's width against it
+		it := f.funcDecl("pkg/ingest/index.go", "", "IndexTable")
+		pkChecked, widthChecked := false, false
+		if it != nil {
+			ast.Inspect(it.Body, func(n ast.Node) bool {
+				is, ok := n.(*ast.IfStmt)
+				if !ok || !terminates(is.Body) {
+					return true
+				}
+				c := f.src(is.Cond)
+				if strings.Contains(c, ">= len(tbl.Columns)") {
+					pkChecked = true
+				}
+				if strings.Contains(c, "len(row) != len(tbl.Columns)") {
+					widthChecked = true
+				}
+				return true
+			})
+		}
+		f.boolFact("indexTableChecksKeyAndWidth", pkChecked && widthChecked)
+	})
+}
